@@ -81,20 +81,20 @@ theorem C08_redeem_key_separation (c : CodeIn) (now : Int) (h : c.opens = none) 
 /-- Tie (T1): `Redeem` opens the code (`UnmarshalSession`) and checks both deadlines (`RefreshPeriodExpired`,
 `LifetimePeriodExpired`) on **every** request, before anything is marshalled — no cache, no fast path. -/
 theorem C08_skeleton_Redeem : Sso.Generated.skel_auth_Redeem =
-    ["call:NewLogEntry", "call:ParseForm", "if{", "call:Error", "call:Sprintf", "call:Error", "return", "}", "call:Get", "call:UnmarshalSession", "if{", "call:append", "call:Incr", "call:WithHTTPStatus", "call:Error", "call:Error", "call:Sprintf", "call:Error", "return", "}", "if{", "call:append", "call:Incr", "call:WithHTTPStatus", "call:Error", "call:Error", "call:Sprintf", "call:Error", "return", "}", "call:RefreshPeriodExpired", "call:LifetimePeriodExpired", "if{", "call:append", "call:Incr", "call:WithUser", "call:WithRefreshDeadline", "call:WithLifetimeDeadline", "call:Error", "call:ClearSession", "call:Sprintf", "call:Error", "return", "}", "call:Now", "call:Sub", "call:Seconds", "call:int64", "call:Marshal", "if{", "call:WriteHeader", "return", "}", "call:Header", "call:Set", "call:Header", "call:Set", "call:Write"] := by decide
+    ["call:ParseForm", "if{", "call:Error", "call:Sprintf", "call:Error", "return", "}", "call:Get", "call:UnmarshalSession", "if{", "call:Error", "call:Sprintf", "call:Error", "return", "}", "if{", "call:Error", "call:Sprintf", "call:Error", "return", "}", "call:RefreshPeriodExpired", "call:LifetimePeriodExpired", "if{", "call:ClearSession", "call:Sprintf", "call:Error", "return", "}", "call:Now", "call:Sub", "call:Seconds", "call:int64", "call:Marshal", "if{", "call:WriteHeader", "return", "}", "call:Header", "call:Set", "call:Header", "call:Set", "call:Write"] := by decide
 
 /-- Tie (T1): the client-credential middlewares and the other three back-channel handlers — call/branch/store skeletons regenerated from the source on every run; the expectations below are
 what the model in this file transliterates. A structural edit of any of these functions breaks this theorem and sends the
 check searching for a failing input. -/
 theorem C08_wiring :
     Sso.Generated.skel_auth_validateClientID =
-      ["func{", "call:GetActionTag", "call:Sprintf", "call:ParseForm", "if{", "call:Error", "call:ErrorResponse", "return", "}", "call:FormValue", "if{", "call:Query", "call:Get", "}", "if{", "call:append", "call:Incr", "call:ErrorResponse", "return", "}", "call:f", "}", "return"] ∧
+      ["func{", "call:ParseForm", "if{", "call:Error", "call:ErrorResponse", "return", "}", "call:FormValue", "if{", "call:Query", "call:Get", "}", "if{", "call:ErrorResponse", "return", "}", "call:f", "}", "return"] ∧
     Sso.Generated.skel_auth_validateClientSecret =
-      ["func{", "call:GetActionTag", "call:Sprintf", "call:ParseForm", "if{", "call:Error", "call:ErrorResponse", "return", "}", "call:Get", "if{", "call:Get", "}", "if{", "call:append", "call:Incr", "call:ErrorResponse", "return", "}", "call:f", "}", "return"] ∧
+      ["func{", "call:ParseForm", "if{", "call:Error", "call:ErrorResponse", "return", "}", "call:Get", "if{", "call:Get", "}", "if{", "call:ErrorResponse", "return", "}", "call:f", "}", "return"] ∧
     Sso.Generated.skel_auth_Refresh =
       ["call:ParseForm", "if{", "call:Error", "call:Sprintf", "call:Error", "return", "}", "call:Get", "if{", "call:Error", "return", "}", "call:RefreshAccessToken", "if{", "call:Error", "call:codeForError", "call:ErrorResponse", "return", "}", "call:Seconds", "call:int64", "call:Marshal", "if{", "call:WriteHeader", "return", "}", "call:WriteHeader", "call:Header", "call:Set", "call:Write"] ∧
     Sso.Generated.skel_auth_ValidateToken =
-      ["call:Get", "if{", "call:append", "call:Incr", "call:WriteHeader", "return", "}", "call:ValidateSessionState", "if{", "call:append", "call:Incr", "call:WriteHeader", "return", "}", "call:WriteHeader", "return"] := by decide
+      ["call:Get", "if{", "call:WriteHeader", "return", "}", "call:ValidateSessionState", "if{", "call:WriteHeader", "return", "}", "call:WriteHeader", "return"] := by decide
 
 /-- **The other three back-channel endpoints say only what the provider said.** `/refresh` answers 201 with a token exactly
 when the provider refreshed, and then with *that* token and lifetime; `/validate` answers 200 exactly when a token was
